@@ -5,9 +5,12 @@
 (* get_torchlib_ops(), joined by the harness with the ATen schema of the installed PyTorch:      *)
 (*   qname, fname, traced, complex, resolved ("op" | "py" | "skip" | "missing"),                 *)
 (*   args   : schema arguments in order  [name, kind, opt, kwonly, hasdef]                       *)
-(*   params : function parameters in order (onnxscript/ir/_schemas.op_signature_from_function   *)
-(*            joined with the python signature)                                                  *)
-(*            [name, input, atype, required, hasdef, variadic, pykind, pydef]                    *)
+(*   params : the function's parameters as its op_signature lists them                          *)
+(*            (onnxscript/ir/_schemas.op_signature_from_function)                                *)
+(*            [name, input, atype, required, hasdef, variadic]                                   *)
+(*   pyparams : the function's parameters as inspect.signature lists them [name, pykind, pydef]  *)
+(* The exporter binds scripted functions positionally against op_signature and calls trace-only  *)
+(* functions as python functions; both lists must therefore be the same list (SignatureAgrees).  *)
 (* A behaviour picks one entry, judges its static clauses (CheckStatic), picks one call shape    *)
 (* (ChooseShape: how many of the optional trailing positional schema arguments the FX node       *)
 (* carries, which keyword-only ones) and then runs the binding the exporter performs for that    *)
@@ -47,6 +50,15 @@ E == Reg[eid]
 Args == E.args
 Params == E.params
 NP == Len(Params)
+PyParams == E.pyparams
+NPy == Len(PyParams)
+\* op_signature and python signature list the same parameters in the same order
+SignatureAgrees == NP = NPy /\ \A k \in 1..NP : Params[k].name = PyParams[k].name
+FirstDisagreement == LET m == IF NP < NPy THEN NP ELSE NPy
+                         D == {k \in 1..m : Params[k].name # PyParams[k].name}
+                     IN IF D # {} THEN Params[CHOOSE k \in D : \A j \in D : k <= j].name
+                        ELSE IF NP > m THEN Params[m + 1].name ELSE IF NPy > m THEN PyParams[m + 1].name ELSE ""
+PyIdx(n) == {k \in 1..NPy : PyParams[k].name = n}
 PosIdx == {k \in 1..Len(Args) : ~Args[k].kwonly}
 KwIdx == {k \in 1..Len(Args) : Args[k].kwonly}
 NPosTotal == Cardinality(PosIdx)
@@ -101,6 +113,7 @@ StaticFails ==
   \cup (IF WellFormed(E.qname) /\ ~NameOK(E.qname) THEN {Fail("default_suffix", "", "")} ELSE {})
   \cup (IF Multiplicity = 1 THEN {} ELSE {Fail("not_unique", "", "")})
   \cup (IF E.resolved = "missing" THEN {Fail("overload_absent", "", "")} ELSE {})
+  \cup (IF SignatureAgrees THEN {} ELSE {Fail("signature_order", "", FirstDisagreement)})
 
 -----------------------------------------------------------------------------
 (* The clauses judged on the outcome of one binding *)
@@ -121,7 +134,7 @@ BoundNames(b, x) == {b[k].src : k \in 1..Len(b)} \cup {x[k] : k \in 1..Len(x)}
 
 BindFails(b) ==
   UNION {LET r == b[k] IN
-         IF r.src \in {"<none>", "<default>", "<all>"} THEN {}
+         IF r.src \in {"<none>", "<default>", "<all>"} \/ ParamIdx(r.param) = {} THEN {}   \* (unknown to op_signature: signature_order)
          ELSE LET a == ArgByName(r.src)
                   p == Params[CHOOSE j \in 1..NP : Params[j].name = r.param]
               IN (IF a.kind \in TensorKinds /\ ~p.input THEN {Fail("tensor_to_attr", a.name, p.name)}
@@ -143,7 +156,8 @@ Lost(tag, n) == IF n \in Droppable THEN (IF tag = "dropped" THEN {} ELSE {Fail("
 \* every call shape - being filled from the python default (trace-only call) or with None does not count
 ParamByName(n) == Params[CHOOSE j \in 1..NP : Params[j].name = n]
 SignatureFails(b) == {Fail("required_unbound", "", b[k].param) :
-                        k \in {j \in 1..Len(b) : b[j].src \in {"<default>", "<none>"} /\ ParamByName(b[j].param).required}}
+                        k \in {j \in 1..Len(b) : /\ b[j].src \in {"<default>", "<none>"} /\ ParamIdx(b[j].param) # {}
+                                                /\ ParamByName(b[j].param).required}}
 DoneFails(b, x, n, ks) == BindFails(b) \cup SignatureFails(b)
                           \cup UNION {Lost("dropped", a) : a \in GivenNames(n, ks) \ BoundNames(b, x)}
 \* (what a raising call had bound before it raised is not observable on the real objects and is not judged)
@@ -223,14 +237,14 @@ S_Return == /\ pc = "s_loop" /\ i > NP
 
 \* ---- trace-only: CPython binds self.func(args..., kwargs...) ----------------------------------
 PosKind(p) == p.pykind \in {"po", "pk"}
-HasVarPos == \E k \in 1..NP : Params[k].pykind = "vp"
-HasVarKw == \E k \in 1..NP : Params[k].pykind = "vk"
+HasVarPos == \E k \in 1..NPy : PyParams[k].pykind = "vp"
+HasVarKw == \E k \in 1..NPy : PyParams[k].pykind = "vk"
 IsBound(n) == \E k \in 1..Len(binds) : binds[k].param = n
 PStep == UNCHANGED <<eid, oid, npos, kws, err, fails>>
-NoPosParamLeft == IF i > NP THEN TRUE ELSE ~PosKind(Params[i])
+NoPosParamLeft == IF i > NPy THEN TRUE ELSE ~PosKind(PyParams[i])
 
-P_BindPositional == /\ pc = "p_pos" /\ stack # <<>> /\ i <= NP /\ PosKind(Params[i])
-                    /\ Bind(Params[i], Args[Head(stack)].name, "pos") /\ stack' = Tail(stack) /\ i' = i + 1
+P_BindPositional == /\ pc = "p_pos" /\ stack # <<>> /\ i <= NPy /\ PosKind(PyParams[i])
+                    /\ Bind(PyParams[i], Args[Head(stack)].name, "pos") /\ stack' = Tail(stack) /\ i' = i + 1
                     /\ UNCHANGED <<pc, kwq, extra>> /\ PStep
 P_CollectVarPositional == /\ pc = "p_pos" /\ stack # <<>> /\ NoPosParamLeft /\ HasVarPos
                           /\ extra' = extra \o [k \in 1..Len(stack) |-> Args[stack[k]].name] /\ stack' = <<>>
@@ -238,9 +252,9 @@ P_CollectVarPositional == /\ pc = "p_pos" /\ stack # <<>> /\ NoPosParamLeft /\ H
 \* too many positional arguments are only diagnosed after the keywords (CPython: too_many_positional)
 P_EndPositional == /\ pc = "p_pos" /\ (IF stack = <<>> THEN TRUE ELSE NoPosParamLeft /\ ~HasVarPos)
                    /\ pc' = "p_kw" /\ UNCHANGED <<kwq, i, stack, binds, extra>> /\ PStep
-KwTarget(n) == {k \in ParamIdx(n) : Params[k].pykind \in {"pk", "ko"}}
+KwTarget(n) == {k \in PyIdx(n) : PyParams[k].pykind \in {"pk", "ko"}}
 P_BindKeyword == /\ pc = "p_kw" /\ kwq # <<>> /\ KwTarget(Head(kwq)) # {} /\ ~IsBound(Head(kwq))
-                 /\ Bind(Params[CHOOSE k \in KwTarget(Head(kwq)) : TRUE], Head(kwq), "kw") /\ kwq' = Tail(kwq)
+                 /\ Bind(PyParams[CHOOSE k \in KwTarget(Head(kwq)) : TRUE], Head(kwq), "kw") /\ kwq' = Tail(kwq)
                  /\ UNCHANGED <<pc, i, stack, extra>> /\ PStep
 P_CollectVarKeyword == /\ pc = "p_kw" /\ kwq # <<>> /\ KwTarget(Head(kwq)) = {} /\ HasVarKw
                        /\ extra' = Append(extra, Head(kwq)) /\ kwq' = Tail(kwq)
@@ -253,14 +267,14 @@ P_RaiseTooManyPositional == /\ pc = "p_kw" /\ kwq = <<>> /\ stack # <<>>
                             /\ Raise("too_many", Args[Head(stack)].name)
 P_EndKeywords == /\ pc = "p_kw" /\ kwq = <<>> /\ stack = <<>>
                  /\ pc' = "p_fill" /\ i' = 1 /\ UNCHANGED <<kwq, stack, binds, extra>> /\ PStep
-FillP == Params[i]
-P_Skip == /\ pc = "p_fill" /\ i <= NP /\ (IsBound(FillP.name) \/ FillP.pykind \in {"vp", "vk"})
+FillP == PyParams[i]
+P_Skip == /\ pc = "p_fill" /\ i <= NPy /\ (IsBound(FillP.name) \/ FillP.pykind \in {"vp", "vk"})
           /\ i' = i + 1 /\ UNCHANGED <<pc, kwq, stack, binds, extra>> /\ PStep
-P_UseDefault == /\ pc = "p_fill" /\ i <= NP /\ ~IsBound(FillP.name) /\ FillP.pykind \notin {"vp", "vk"} /\ FillP.pydef
+P_UseDefault == /\ pc = "p_fill" /\ i <= NPy /\ ~IsBound(FillP.name) /\ FillP.pykind \notin {"vp", "vk"} /\ FillP.pydef
                 /\ Bind(FillP, "<default>", "fill") /\ i' = i + 1 /\ UNCHANGED <<pc, kwq, stack, extra>> /\ PStep
-P_RaiseMissing == /\ pc = "p_fill" /\ i <= NP /\ ~IsBound(FillP.name) /\ FillP.pykind \notin {"vp", "vk"} /\ ~FillP.pydef
+P_RaiseMissing == /\ pc = "p_fill" /\ i <= NPy /\ ~IsBound(FillP.name) /\ FillP.pykind \notin {"vp", "vk"} /\ ~FillP.pydef
                   /\ Raise("missing", FillP.name)
-P_Call == /\ pc = "p_fill" /\ i > NP
+P_Call == /\ pc = "p_fill" /\ i > NPy
           /\ pc' = "done" /\ fails' = DoneFails(binds, extra, npos, kws)
           /\ UNCHANGED <<eid, oid, npos, kwq, kws, i, stack, binds, extra, err>>
 
@@ -285,7 +299,7 @@ Explained == \A f \in fails : f.dev # ""
 SchemaShapeOK == \A a \in PosIdx, b \in KwIdx : a < b
 MachineSane == /\ SchemaShapeOK
                /\ \A a, b \in 1..Len(binds) : a # b => binds[a].param # binds[b].param
-               /\ (pc = "done" => Len(binds) <= NP /\ err = NoErr)
+               /\ (pc = "done" => Len(binds) <= (IF NP > NPy THEN NP ELSE NPy) /\ err = NoErr)
                /\ (pc = "raised" => err # NoErr)
 \* the binding machines are deterministic: the harness asserts that every (entry, call shape) has
 \* exactly one terminal state, and that every action below is taken on the real + seeded registries
